@@ -709,11 +709,11 @@ Lemma settings_fold_ok : forall kvs c m, R0 c m -> forallb kv_valid kvs = true -
      m_max_streams (fold_left apply_setting kvs m) = m_max_streams m).
 Proof.
   induction kvs as [|kv r IH]; intros c m H Hv; cbn [fold_left].
-  - repeat split; auto.
+  - split; [exact H|split; [reflexivity|intros; reflexivity]].
   - cbn [forallb] in Hv. apply andb_true_iff in Hv as [Hv1 Hv2].
     destruct (setting_ok c m kv H Hv1) as (A & B & C0 & D).
     destruct (IH _ _ A Hv2) as (A' & B' & C').
-    repeat split; auto; [congruence|].
+    split; [exact A'|split; [congruence|]].
     unfold has_setting in *. cbn [existsb]. intros Hn. apply orb_false_iff in Hn as [Hn1 Hn2].
     rewrite C' by exact Hn2. apply C0. lia.
 Qed.
@@ -733,7 +733,7 @@ Proof.
   assert (H1 : R0 c m1).
   { unfold R0, m1. cbn. repeat split; auto; lia. }
   destruct (settings_fold_ok kvs c m1 H1 (settings_valid_kv _ Ev)) as (A & B & C0).
-  rewrite Rhdr. fold m1. unfold apply_settings.
+  unfold apply_settings.
   eexists. split; [reflexivity|].
   destruct A as (A1 & A2 & A3 & A4 & A5 & A6 & A7 & A8 & A9 & A10 & A11 & A12 & A13 & A14 & A15 & A16 & A17 & A18).
   unfold R. cbn. repeat split; auto; try lia; try (intros; discriminate).
